@@ -31,6 +31,7 @@ func init() {
 	acts["dh_pub"] = actDhPub
 	acts["dh_shared"] = actDhShared
 	acts["dh_calc"] = actDhCalc
+	acts["child_new"] = actChildNew
 	acts["gen_random"] = actGenRandom
 	acts["cipher_new"] = actCipherNew
 	acts["cipher_encrypt"] = actCipherEncrypt
@@ -153,28 +154,59 @@ func randObs(r *recReader, o J) {
 
 // ---------------------------------------------------------------------------------------- Child SA
 
+// actChildNew creates a Child SA object from a negotiated ESP proposal and keeps it under a name; it is keyed by a later
+// derive_child step that names it (obj) -- other objects may be created and used in between (MultiSA.tla)
+func actChildNew(e *Env, a J) J {
+	c, obs := childObject(a, false)
+	if c == nil {
+		return obs
+	}
+	e.objs["child:"+gs(a, "name")] = c
+	return J{"err": false}
+}
+
 func actDeriveChild(e *Env, a J) J {
 	o := getSA(e, a)
 	if o == nil {
 		return J{"infra": "derive_child: unknown SA"}
 	}
+	var c *security.ChildSAKey
+	if n := gs(a, "obj"); n != "" {
+		c, _ = e.objs["child:"+n].(*security.ChildSAKey)
+		if c == nil {
+			return J{"infra": "derive_child: unknown Child SA object " + n}
+		}
+	} else {
+		var obs J
+		c, obs = childObject(a, true)
+		if c == nil {
+			return obs
+		}
+	}
+	return childKeyObs(e, c, o, a)
+}
+
+// childObject builds the Child SA object a step asks for (by name, or through a negotiated proposal: via); with decoy the next
+// negotiation comes in before the object is keyed
+func childObject(a J, decoy bool) (*security.ChildSAKey, J) {
+	ret := J{}
 	c := new(security.ChildSAKey)
 	c.EncrKInfo = encr.StrToKType(encrNames[gi(a, "encr")])
 	if n := gs(a, "integ"); n != "" && n != "none" {
 		c.IntegKInfo = integ.StrToKType(integNames[n])
 		if c.IntegKInfo == nil {
-			return J{"infra": "derive_child: integ " + n}
+			return nil, J{"infra": "derive_child: integ " + n}
 		}
 	}
 	if c.EncrKInfo == nil {
-		return J{"infra": "derive_child: encr"}
+		return nil, J{"infra": "derive_child: encr"}
 	}
 	if via := gs(a, "via"); via != "" {
 		// the Child SA as it comes out of a negotiated ESP proposal (NewChildSAKeyByProposal), with or without a DH transform:
 		// the proposal the name-built object advertises, optionally without / with another group, over the wire and back
 		p, err := c.ToProposal()
 		if err != nil {
-			return J{"infra": "derive_child: ToProposal: " + err.Error()}
+			return nil, J{"infra": "derive_child: ToProposal: " + err.Error()}
 		}
 		switch via {
 		case "proposal-dh2":
@@ -187,20 +219,20 @@ func actDeriveChild(e *Env, a J) J {
 		sa := &message.SecurityAssociation{Proposals: message.ProposalContainer{p}}
 		b, err := sa.Marshal()
 		if err != nil {
-			return J{"infra": "derive_child: marshal: " + err.Error()}
+			return nil, J{"infra": "derive_child: marshal: " + err.Error()}
 		}
 		sa2 := new(message.SecurityAssociation)
 		if err := sa2.Unmarshal(b); err != nil {
-			return J{"infra": "derive_child: unmarshal: " + err.Error()}
+			return nil, J{"infra": "derive_child: unmarshal: " + err.Error()}
 		}
 		c2, err := security.NewChildSAKeyByProposal(sa2.Proposals[0])
 		if err != nil {
-			return J{"err": true, "errmsg": "NewChildSAKeyByProposal: " + err.Error()}
+			return nil, J{"err": true, "errmsg": "NewChildSAKeyByProposal: " + err.Error()}
 		}
 		c = c2
 		// before this Child SA is keyed the next negotiation comes in (another ESP proposal: other key size, other integrity
 		// algorithm) and gets its own object -- which is none of this one's business
-		if p2, err := c.ToProposal(); err == nil {
+		if p2, err := c.ToProposal(); err == nil && decoy {
 			alt := map[int]int{128: 256, 192: 128, 256: 192}[gi(a, "encr")]
 			if t2, err := encr.ToTransformChildSA(encr.StrToKType(encrNames[alt])); err == nil && t2 != nil {
 				p2.EncryptionAlgorithm = message.TransformContainer{t2}
@@ -213,13 +245,15 @@ func actDeriveChild(e *Env, a J) J {
 			if b3, err := sa3.Marshal(); err == nil {
 				sa4 := new(message.SecurityAssociation)
 				if sa4.Unmarshal(b3) == nil {
-					if decoy, err := security.NewChildSAKeyByProposal(sa4.Proposals[0]); err == nil && decoy != nil {
-						defer func() { _ = decoy.GenerateKeyForChildSA(o.key, []byte{1, 2, 3}) }()
-					}
+					_, _ = security.NewChildSAKeyByProposal(sa4.Proposals[0])
 				}
 			}
 		}
 	}
+	return c, ret
+}
+
+func childKeyObs(e *Env, c *security.ChildSAKey, o *saObj, a J) J {
 	err := c.GenerateKeyForChildSA(o.key, []byte(gox(a, "nonce")))
 	obs := errObs(err)
 	if err == nil {
